@@ -41,7 +41,10 @@ Member gen_group_value(Entropy &e) {
         case 0:
         case 1:
         case 2: {
-            static const char *s[] = {"a", "b", "x y", "zz", "1"};
+            static const char *s1[] = {"a", "b", "x y", "zz", "1"};
+            // (twins == 2: two group names whose hash has no bit set but the top one - the value the library forces on, next to the removed-slot marker 0)
+            static const char *s2[] = {"a", "c9xpkftaLi2gmsLp", "x y", "jnuroqnsjroafpiy", "1"};
+            const char *const *s    = (kGroupKey[1] != 0) ? s2 : s1;
             m.kind                  = 1;
             m.s                     = s[e.below(5)];
             m.json                  = "\"" + m.s + "\"";
@@ -176,7 +179,7 @@ Scenario make_scenario(const Case &c, Value<Char_T> &arr) {
         Value<Char_T> v{ValueType::Object};
         // plan: other members (distinct keys), the group key at a random position, an id, optional removed members
         static const char *names1[] = {"m", "n", "p", "q", "y"};
-        static const char *names2[] = {"pear", "near", "dear", "q", "fear"};
+        static const char *names2[] = {"pear", "jnuroqnsjroafpiy", "dear", "q", "fear"};
         const char *const *names    = (c.twins == 2) ? names2 : names1;
         unsigned           others   = e.below(5);
         std::vector<Member> plan;
